@@ -864,7 +864,15 @@ func startKeepalive(session keepaliveSession, interval time.Duration, failureThr
 				pingCtx, pingCancel := context.WithTimeout(context.Background(), interval/2)
 				err := session.Ping(pingCtx, nil)
 				pingCancel()
+				// Once the session is being closed by its owner, keep-alive
+				// ends silently: the outcome of a ping that was in flight is
+				// not reported any more. A peer that this ping shows to be dead
+				// is still given up, so that it cannot keep the Close waiting.
+				closing := ctx.Err() != nil
 				if err == nil {
+					if closing {
+						return
+					}
 					consecutiveFailures = 0
 					continue
 				}
@@ -873,6 +881,14 @@ func startKeepalive(session keepaliveSession, interval time.Duration, failureThr
 					return
 				}
 				consecutiveFailures++
+				if closing {
+					if consecutiveFailures >= failureThreshold {
+						if s, ok := session.(interface{ getConn() *jsonrpc2.Connection }); ok {
+							s.getConn().Abandon(fmt.Errorf("%w: keepalive: peer is not responding to pings", jsonrpc2.ErrClientClosing))
+						}
+					}
+					return
+				}
 				if consecutiveFailures < failureThreshold {
 					// Tolerate transient failures below the threshold; log so
 					// the misses are still observable to operators. See #218.
